@@ -408,6 +408,8 @@ class Parser(object):
                       | expression LSHIFT expression
                       | expression RSHIFT expression'''
         try:
+            if t[2] in ('<<', '>>') and t[3] > 64:
+                raise OverflowError
             if t[2] == '+':
                 t[0] = t[1] + t[3]
             elif t[2] == '-':
@@ -429,6 +431,14 @@ class Parser(object):
         except ValueError:
             self._parser_error(
                 'negative shift count',
+                t.lineno(1), t.lexpos(1)
+            )
+            t[0] = 0
+        except OverflowError:
+            t[0] = 1 << 64
+        if not -(1 << 64) < t[0] < (1 << 64):
+            self._parser_error(
+                'expression value out of 64-bit range',
                 t.lineno(1), t.lexpos(1)
             )
             t[0] = 0
